@@ -162,8 +162,158 @@ def _split_withs(fn):
     # ast.walk visits the freshly made inner node later, so longer item lists are split fully
 
 
+class _ExprNF(ast.NodeTransformer):
+    """Expression normal forms (all meaning-preserving):
+      E1  negations pushed inward: not (a is b) -> a is not b, not (a == b) -> a != b, not (a in b) -> a not in b,
+          not not a -> a (in a boolean position), not (a and b) -> not a or not b, not (a or b) -> not a and not b;
+          a constant / None on the left of a comparison moves to the right (0 < n -> n > 0, None is x -> x is None)
+      E3  x = x <op> e  ->  x <op>= e            (x a name or attribute chain)
+      E8  s[0:n] -> s[:n]
+      E9  dict() -> {}, list() -> [], tuple() -> ()
+      E6  isinstance(x, A) or isinstance(x, B)  ->  isinstance(x, (A, B))
+    """
+    NEG = {ast.Is: ast.IsNot, ast.IsNot: ast.Is, ast.Eq: ast.NotEq, ast.NotEq: ast.Eq, ast.In: ast.NotIn, ast.NotIn: ast.In,
+           ast.Lt: ast.GtE, ast.GtE: ast.Lt, ast.Gt: ast.LtE, ast.LtE: ast.Gt}
+    FLIP = {ast.Lt: ast.Gt, ast.Gt: ast.Lt, ast.LtE: ast.GtE, ast.GtE: ast.LtE, ast.Eq: ast.Eq, ast.NotEq: ast.NotEq, ast.Is: ast.Is, ast.IsNot: ast.IsNot}
+
+    def _neg(self, e):
+        """The negation of e, pushed inward where that is exact."""
+        if isinstance(e, ast.UnaryOp) and isinstance(e.op, ast.Not):
+            return e.operand
+        if isinstance(e, ast.Compare) and len(e.ops) == 1 and type(e.ops[0]) in self.NEG and not isinstance(e.ops[0], (ast.Lt, ast.Gt, ast.LtE, ast.GtE)):
+            return ast.copy_location(ast.Compare(left=e.left, ops=[self.NEG[type(e.ops[0])]()], comparators=e.comparators), e)
+        if isinstance(e, ast.BoolOp):
+            op = ast.Or() if isinstance(e.op, ast.And) else ast.And()
+            return ast.copy_location(ast.BoolOp(op=op, values=[self._neg(v) for v in e.values]), e)
+        return ast.copy_location(ast.UnaryOp(op=ast.Not(), operand=e), e)
+
+    def visit_UnaryOp(self, n):
+        self.generic_visit(n)
+        if isinstance(n.op, ast.Not):
+            o = n.operand
+            if isinstance(o, ast.Compare) and len(o.ops) == 1 and type(o.ops[0]) in (ast.Is, ast.IsNot, ast.Eq, ast.NotEq, ast.In, ast.NotIn):
+                return self._neg(o)
+            if isinstance(o, ast.BoolOp):
+                return self.visit(self._neg(o))
+            if isinstance(o, ast.UnaryOp) and isinstance(o.op, ast.Not) and isinstance(o.operand, (ast.Compare, ast.BoolOp)):
+                return o.operand
+        return n
+
+    def visit_Compare(self, n):
+        self.generic_visit(n)
+        if len(n.ops) == 1 and type(n.ops[0]) in self.FLIP and isinstance(n.left, ast.Constant) and not isinstance(n.comparators[0], ast.Constant):
+            return ast.copy_location(ast.Compare(left=n.comparators[0], ops=[self.FLIP[type(n.ops[0])]()], comparators=[n.left]), n)
+        return n
+
+    def visit_BoolOp(self, n):
+        self.generic_visit(n)
+        if isinstance(n.op, ast.Or) and len(n.values) >= 2:
+            # isinstance(x, A) or isinstance(x, B) -> isinstance(x, (A, B))
+            calls = n.values
+            if all(isinstance(c, ast.Call) and isinstance(c.func, ast.Name) and c.func.id == "isinstance" and len(c.args) == 2 and not c.keywords for c in calls) \
+                    and len({ast.dump(c.args[0]) for c in calls}) == 1:
+                types = []
+                for c in calls:
+                    types += list(c.args[1].elts) if isinstance(c.args[1], ast.Tuple) else [c.args[1]]
+                new = ast.Call(func=calls[0].func, args=[calls[0].args[0], ast.Tuple(elts=types, ctx=ast.Load())], keywords=[])
+                return ast.copy_location(new, n)
+        return n
+
+    def visit_Subscript(self, n):
+        self.generic_visit(n)
+        if isinstance(n.slice, ast.Slice) and isinstance(n.slice.lower, ast.Constant) and n.slice.lower.value == 0 and n.slice.step is None:
+            n.slice.lower = None
+        return n
+
+    def visit_Call(self, n):
+        self.generic_visit(n)
+        if isinstance(n.func, ast.Name) and not n.args and not n.keywords:
+            if n.func.id == "dict":
+                return ast.copy_location(ast.Dict(keys=[], values=[]), n)
+            if n.func.id == "list":
+                return ast.copy_location(ast.List(elts=[], ctx=ast.Load()), n)
+            if n.func.id == "tuple":
+                return ast.copy_location(ast.Tuple(elts=[], ctx=ast.Load()), n)
+        return n
+
+    def visit_Assign(self, n):
+        self.generic_visit(n)
+        if len(n.targets) == 1 and isinstance(n.targets[0], (ast.Name, ast.Attribute)) and isinstance(n.value, ast.BinOp) \
+                and isinstance(n.value.op, (ast.Add, ast.Sub, ast.BitOr, ast.BitAnd, ast.Mult)) \
+                and ast.dump(n.value.left) == ast.dump(n.targets[0]).replace("Store()", "Load()"):
+            t = n.targets[0]
+            return ast.copy_location(ast.AugAssign(target=t, op=n.value.op, value=n.value.right), n)
+        return n
+
+
+def _split_tuple_assigns(fn):
+    """E7: `a, b = x, y` -> `a = x; b = y` when no earlier target is read by a later value.
+       E13: `x = x` is dropped."""
+    for n in ast.walk(fn):
+        for b in _blocks(n):
+            out = []
+            for s in b:
+                if isinstance(s, ast.Assign) and len(s.targets) == 1 and isinstance(s.targets[0], ast.Tuple) and isinstance(s.value, ast.Tuple) \
+                        and len(s.targets[0].elts) == len(s.value.elts) and all(isinstance(t, ast.Name) for t in s.targets[0].elts) \
+                        and not any(isinstance(v, ast.Starred) for v in s.value.elts):
+                    names = [t.id for t in s.targets[0].elts]
+                    ok = True
+                    for i, v in enumerate(s.value.elts):
+                        used = {x.id for x in ast.walk(v) if isinstance(x, ast.Name)}
+                        if used & set(names[:i]):
+                            ok = False
+                    if ok:
+                        for t, v in zip(s.targets[0].elts, s.value.elts):
+                            out.append(ast.copy_location(ast.Assign(targets=[t], value=v), s))
+                        continue
+                out.append(s)
+            out2 = [s for s in out if not (isinstance(s, ast.Assign) and len(s.targets) == 1 and isinstance(s.targets[0], ast.Name)
+                                           and isinstance(s.value, ast.Name) and s.value.id == s.targets[0].id)]
+            b[:] = out2 if out2 else [ast.copy_location(ast.Pass(), b[0])] if b else b
+
+
+def _hoist_constant_else(fn):
+    """E5': `if c: S else: x = K` (the else branch only binds names to constants, and neither c nor S reads them
+    before binding) -> `x = K; if c: S` — the 'default, then override' spelling."""
+    for n in ast.walk(fn):
+        for b in _blocks(n):
+            i = 0
+            while i < len(b):
+                s = b[i]
+                if isinstance(s, ast.If) and s.orelse and all(
+                        isinstance(e, ast.Assign) and len(e.targets) == 1 and isinstance(e.targets[0], ast.Name) and isinstance(e.value, ast.Constant)
+                        for e in s.orelse):
+                    names = {e.targets[0].id for e in s.orelse}
+                    reads_test = {x.id for x in ast.walk(s.test) if isinstance(x, ast.Name)}
+                    # in the body every one of the names is assigned before it is read (simple check: the
+                    # first occurrence of the name in the body is a store in a top-level assignment)
+                    ok = not (names & reads_test)
+                    for nm in names:
+                        first = None
+                        for st in s.body:
+                            occ = [x for x in ast.walk(st) if isinstance(x, ast.Name) and x.id == nm]
+                            if occ:
+                                first = st
+                                break
+                        if first is None:
+                            continue
+                        if not (isinstance(first, ast.Assign) and any(isinstance(t, ast.Name) and t.id == nm for t in first.targets)
+                                and not any(isinstance(x, ast.Name) and x.id == nm for x in ast.walk(first.value))):
+                            ok = False
+                    if ok:
+                        pre = list(s.orelse)
+                        s.orelse = []
+                        b[i:i + 1] = pre + [s]
+                        i += len(pre)
+                i += 1
+
+
 def _canon_function(fn):
     _split_withs(fn)
+    _ExprNF().visit(fn)
+    _split_tuple_assigns(fn)
+    _hoist_constant_else(fn)
+    ast.fix_missing_locations(fn)
     again = True
     while again:
         again = False
